@@ -188,6 +188,9 @@ def compile_all(ctx):
         s = gen.program()
         srcs.append((f"big{i}", s))
         feats[f"big{i}"] = set(gen.features)
+    # core scripts whose top-level branches / loops introduce names that later top-level statements assign again (hoisted globals)
+    for i in range(ctx.n(60, 800)):
+        srcs.append((f"promo{i}", langgen.py_source(langgen.G(rng, max_depth=rng.choice([2, 3]), promote=True).program())))
     outs = [cxx.transpile(s) for _, s in srcs]
     acc = [(n, s, cpp) for (n, s), (cpp, e) in zip(srcs, outs) if cpp is not None]
     ctx.count("big:accepted", len(acc))
